@@ -30,6 +30,9 @@ var crudDriverSrc string
 //go:embed testbin/memdb.go.txt
 var memdbSrc string
 
+//go:embed testbin/zzrand.go.txt
+var zzrandSrc string
+
 //go:embed testbin/pq.go.txt
 var pqFunctionalSrc string
 
@@ -75,6 +78,11 @@ type binRecord struct {
 	Msg   string          `json:"msg"`
 	Val   json.RawMessage `json:"val"`
 	Back  json.RawMessage `json:"back"`
+	Calls []struct {
+		Fn  string `json:"fn"`
+		Arg int64  `json:"arg"`
+		Res int64  `json:"res"`
+	} `json:"calls"`
 }
 
 type binResult struct {
@@ -180,7 +188,11 @@ func runTestBinaryX(m *modSpec, o *obsResult, seed int64, samples int, withRand 
 		err = writeGen("zz_unions.go", g.Text)
 	}
 	if err == nil && withRand {
-		err = writeGen("zz_rand.go", o.Gen["randdata"].Text)
+		if err = writeGen("zz_rand.go", o.Gen["randdata"].Text); err == nil {
+			// the generated functions draw their random numbers through the recording shim
+			b, _ := os.ReadFile(filepath.Join(dir, "zz_rand.go"))
+			writeFile(filepath.Join(dir, "zz_rand.go"), strings.Replace(string(b), "\"math/rand\"", "rand \""+m.ModPath+"/zzrand\"", 1))
+		}
 	}
 	crudFile := ""
 	if err == nil && crud != nil {
@@ -203,9 +215,10 @@ func runTestBinaryX(m *modSpec, o *obsResult, seed int64, samples int, withRand 
 		res.BuildErr = "package main cannot be imported"
 		return res
 	}
-	writeFile(filepath.Join(root, "cmd", "verifbin", "main.go"), strings.Replace(driverSrc, "TARGETIMPORT", importPath, 1))
+	writeFile(filepath.Join(root, "cmd", "verifbin", "main.go"), strings.ReplaceAll(driverSrc, "TARGETIMPORT", importPath))
 	writeFile(filepath.Join(root, "cmd", "verifbin", "crud.go"), strings.ReplaceAll(crudDriverSrc, "TARGETIMPORT", importPath))
 	writeFile(filepath.Join(dir, "zzmemdb", "memdb.go"), memdbSrc)
+	writeFile(filepath.Join(dir, "zzrand", "zzrand.go"), zzrandSrc)
 	if crud != nil {
 		writeFile(filepath.Join(root, "pqstub", "go.mod"), "module github.com/lib/pq\n\ngo 1.21\n")
 		writeFile(filepath.Join(root, "pqstub", "pq.go"), pqFunctionalSrc)
